@@ -309,7 +309,7 @@ class EDXMLParserBase(object):
             raise
 
         for event_type_name in self._ontology.get_event_type_names():
-            self.__num_parsed_event_types[event_type_name] = 0
+            self.__num_parsed_event_types.setdefault(event_type_name, 0)
 
         # Invoke callback to inform about the
         # new ontology.
